@@ -182,6 +182,7 @@ def run(ctx):
         with G.Grid(num_clients=1, num_servers=5, k=2, n=4, happy=1, max_segment_size=128, seed=ctx.seed) as g, \
                 G.Grid(num_clients=1, num_servers=5, k=2, n=4, happy=1, max_segment_size=128, seed=ctx.seed + 1) as g2:
             rig, twin = Rig(g), Rig(g2)
+            big_files(ctx, rig, old_chunk)
             for fi in range(nfiles):
                 if ctx.tier == "quick" and not ctx.search and ctx.elapsed() > 35:
                     break
@@ -208,13 +209,72 @@ def replay(ctx, rec):
     try:
         with G.Grid(num_clients=1, num_servers=5, k=2, n=4, happy=1, max_segment_size=128, seed=ctx.seed) as g, \
                 G.Grid(num_clients=1, num_servers=5, k=2, n=4, happy=1, max_segment_size=128, seed=ctx.seed + 1) as g2:
-            one_file(ctx, Rig(g), Rig(g2), fi, terms, info)
+            if fi == "big":
+                big_files(ctx, Rig(g), old_chunk)
+            else:
+                one_file(ctx, Rig(g), Rig(g2), fi, terms, info)
     finally:
         offloaded.CHKCiphertextFetcher.CHUNK_SIZE = old_chunk
     bad = ctx.coq_check(IMPORTS, terms, preamble=PREAMBLE, tag="c44replay")
     for ix in bad:
         ctx.mismatch("model-vs-helper:" + info[ix][0], "Coq model and the real helper disagree", case=info[ix][1], correspondence=info[ix][0])
     return {"file": fi, "sessions": ctx.evaluations, "failures": [f["kind"] for f in ctx.failures]}
+
+
+def big_files(ctx, rig, real_chunk):
+    """Encoding parameters away from the defaults: a file a bit larger than 1 MiB with max_segment_size above the
+    1 MiB default (one segment on the client's terms) and with a small one (many segments), the fetcher's real
+    CHUNK_SIZE: direct vs helper, caps and every share equal, the file reads back through the direct cap."""
+    from allmydata.immutable import offloaded
+    r = ctx.rng("big")
+    variants = [(2 * 1024 * 1024, "2MiB"), (64 * 1024, "64KiB")]
+    if ctx.tier == "thorough" or ctx.search:
+        variants.append((4 * 1024 * 1024, "4MiB"))
+    size = 1024 * 1024 + r.randrange(100000, 250000)
+    data = r.randbytes(size)
+    for seg, label in variants:
+        k = r.choice([1, 2, 3])
+        n = r.choice([x for x in (2, 3, 4, 5) if x >= k])
+        conv = r.randbytes(16)
+        rig.g.set_encoding(k=k, n=n, happy=1, max_segment_size=seg)
+        offloaded.CHKCiphertextFetcher.CHUNK_SIZE = real_chunk
+        case = {"file": "big", "size": size, "k": k, "n": n, "max_segment_size": seg, "convergence": conv.hex()}
+        out, _ = rig.upload(data, conv, direct=True)
+        ctx.case(("big-direct", label, k, n), kind="large-file-direct:" + label)
+        if out.status != "ok":
+            raise RuntimeError("direct upload of the large file failed: %s %s" % (out.status, out.error))
+        cap_d = out.value.get_uri()
+        shares_d = rig.shares(cap_d)
+        rig.g.delete_shares(cap_d)
+        out, tape = rig.upload(data, conv)
+        ctx.case(("big-helper", label, k, n), kind="large-file-helper:" + label)
+        if out.status != "ok" or out.value.get_uri() != cap_d:
+            ctx.oracle_fail("helper-upload-differs-from-direct:non-default-segment-size",
+                            "%d byte file, max_segment_size %s, %d-of-%d: the upload through the helper ended with %s %s" % (
+                                size, label, k, n, out.status, out.error if out.status != "ok" else out.value.get_uri()),
+                            case=case, expected=cap_d.decode(), observed=str(out.error) if out.status != "ok" else out.value.get_uri().decode())
+        sh = rig.shares(cap_d)
+        if sh != shares_d:
+            diff = sorted(x for x in set(sh) | set(shares_d) if sh.get(x) != shares_d.get(x))
+            ctx.oracle_fail("helper-shares-differ-from-direct-shares:non-default-segment-size",
+                            "%d byte file, max_segment_size %s: the shares the helper pushed differ from the direct upload's for share numbers %s" % (size, label, diff),
+                            case=case, expected="identical payload for every share number", observed={"differing": diff, "present": sorted(sh)})
+        dl = rig.g.run(rig.g.download(cap_d), outcome=True)
+        if dl.status != "ok" or dl.value != data:
+            ctx.oracle_fail("helper-upload-not-readable-through-direct-cap:non-default-segment-size",
+                            "%d byte file, max_segment_size %s: after the helper upload the file does not read back through the direct upload's cap: %s %s" % (
+                                size, label, dl.status, dl.error), case=case, observed=str(dl.error))
+        want = [(o_, min(real_chunk, size - o_)) for o_ in range(0, size, real_chunk)]
+        if out.status == "ok" and reads(tape) != want:
+            ctx.oracle_fail("helper-transfer-requests:large-file", "the transfer of the large file was not %d contiguous chunks of %d" % (len(want), real_chunk),
+                            case=case, expected=want[:3], observed=reads(tape)[:5])
+        left = rig.leftovers()
+        if left:
+            ctx.oracle_fail("helper-leaves-ciphertext-behind:large-file", "after the large upload the helper still holds %s" % {p_: len(v) for p_, v in left.items()}, case=case)
+            for p_ in left:
+                os.unlink(os.path.join(rig.dir, p_))
+        rig.helper._active_uploads.clear()
+        rig.g.delete_shares(cap_d)
 
 
 def n_list(xs):
